@@ -8,6 +8,7 @@ import (
 	"io"
 	"os"
 	"path/filepath"
+	"sort"
 	"strings"
 
 	"github.com/zerx-lab/wordZero/pkg/document"
@@ -38,6 +39,10 @@ type Script struct {
 	NoLists  bool                 // leave out calls that touch the process-wide registries
 	NoReopen bool
 	Weights  map[string]int // optional weight overrides per op name
+	// StyleMarks: style id -> run colour written into the registered style object by the latest in-place change (the only way the
+	// API offers to change a style); the next save, and every later one, has to show it
+	StyleMarks map[string]string
+	usedStyles map[string]bool
 }
 
 func NewScript(r *rng.R, hostile bool, workDir string) *Script {
@@ -736,21 +741,55 @@ func init() {
 			if s.Hostile && r.Chance(1, 4) {
 				id = s.Str()
 			}
-			switch r.Intn(4) {
+			switch r.Intn(6) {
+			case 4, 5:
+				// change a registered style in place
+				cands := []string{"Normal", "Heading1", "Heading2", "Quote", "Title", "CodeBlock", "Emphasis"}
+				for _, st := range sm.GetAllStyles() {
+					if st != nil && st.CustomStyle && strings.HasPrefix(st.StyleID, "Cust") {
+						cands = append(cands, st.StyleID)
+					}
+				}
+				sort.Strings(cands)
+				sid := cands[r.Intn(len(cands))]
+				st := sm.GetStyle(sid)
+				if st == nil {
+					return
+				}
+				s.serial++
+				mark := fmt.Sprintf("%06X", 0xA00000+(s.serial*7919+r.Intn(64))%0x5FFFFF)
+				if st.RunPr == nil {
+					st.RunPr = &style.RunProperties{}
+				}
+				st.RunPr.Color = &style.Color{Val: mark}
+				if s.StyleMarks == nil {
+					s.StyleMarks = map[string]string{}
+				}
+				s.StyleMarks[sid] = mark
 			case 0:
+				delete(s.StyleMarks, id)
 				st := sm.CreateCustomStyle(id, s.Str(), []style.StyleType{"paragraph", "character", "table", "numbering", ""}[r.Intn(5)], []string{"", "Normal", "Heading1"}[r.Intn(3)])
 				if st != nil && r.Bool() {
 					if p := s.pickPara(); p != nil {
 						p.SetStyle(id)
+						if s.usedStyles == nil {
+							s.usedStyles = map[string]bool{}
+						}
+						s.usedStyles[id] = true
 					}
 				}
 			case 1:
+				delete(s.StyleMarks, id)
 				api := style.NewQuickStyleAPI(sm)
 				api.CreateQuickStyle(style.QuickStyleConfig{ID: id, Name: s.Str(), Type: "paragraph", BasedOn: "Normal",
 					ParagraphConfig: &style.QuickParagraphConfig{Alignment: "center", LineSpacing: 1.5, SpaceBefore: 6},
 					RunConfig:       &style.QuickRunConfig{FontName: s.Str(), FontSize: 11, FontColor: "333333", Bold: r.Bool(), Italic: r.Bool()}})
 			case 2:
 				// only styles nothing else in the script uses (removing a style and then using it is caller misuse)
+				if s.usedStyles[id] {
+					return // the id collides with a style a paragraph of this script uses
+				}
+				delete(s.StyleMarks, id)
 				sm.RemoveStyle([]string{"Subtitle", id, id}[r.Intn(3)])
 			case 3:
 				sm.GetStyleWithInheritance([]string{"Heading1", "Normal", id, "missing"}[r.Intn(4)])
@@ -819,6 +858,7 @@ func init() {
 				return
 			}
 			s.adopt(d2)
+			s.StyleMarks = nil // a new document with its own registry
 		}},
 		{"Reopen", 3, func(s *Script) {
 			if s.NoReopen {
